@@ -56,7 +56,22 @@ Inductive ikind :=
 | IEnum (name : bytes).
 
 (* a field of an inline (anonymous) object / an option of an inline oneof: simple types only *)
-Record sfield := mkSF { sf_name : bytes; sf_kind : ikind; sf_required : bool; sf_optional : bool }.
+Record sfield := mkSF5 { sf_name : bytes; sf_kind : ikind; sf_required : bool; sf_optional : bool;
+                         sf_desc : bytes }.      (* the field's `description` ("" = none) *)
+Notation mkSF n k r o := (mkSF5 n k r o []) (only parsing).
+
+(* a field of an inline schema AT ANY DEPTH (`field a object { field b object { .. } field c array:string }`):
+   simple types, arrays / maps of them, and again inline schemas (k: 0 object 1 oneof 2 enum; c: the
+   container as in uf_container).  Used by [KInlineTree]; the flat [sfield] form stays for inline schemas
+   with simple fields only (the acceptance theorems cover the flat form) *)
+Inductive tfield :=
+| TF (name : bytes) (kind : tkind) (required optional : bool) (desc : bytes)
+with tkind :=
+| TK (i : ikind)
+| TKArray (i : ikind)
+| TKMap (i : ikind)
+| TKInline (k : N) (c : N) (fields : list tfield) (options : list bytes).
+Definition tf_name (t : tfield) : bytes := match t with TF n _ _ _ _ => n end.
 
 Inductive fkind :=
 | KScalar (ptype : N) (j5kind : bytes)
@@ -74,9 +89,20 @@ Inductive fkind :=
    nested in the containing message, named ToCamel(field name) *)
 | KInlineObject (fields : list sfield)
 | KInlineOneof (options : list sfield)
-| KInlineEnum (options : list bytes).
+| KInlineEnum (options : list bytes)
+(* an inline object (k = 0) / oneof (k = 1) whose fields are not all simple *)
+| KInlineTree (k : N) (fields : list tfield).
 
-Record ufield := mkU { uf_name : bytes; uf_kind : fkind; uf_required : bool; uf_optional : bool }.
+(* uf_desc: the field's `description` ("" = none): a leading comment of the proto field;
+   uf_keyfmt: the format of a key-typed field (`key` 0, `key:id62` 1, `key:uuid` 2): written into
+   (j5.ext.v1.field).key.format since fix cf354a5; meaningless for other kinds *)
+(* uf_container: for the INLINE kinds only, `array:object { .. }` (1) / `map:object { .. }` (2) instead
+   of a singular field (0): a repeated field (of the entry message, for a map) whose item type is the
+   nested type; arrays / maps of the other kinds are KArray / KMap *)
+Record ufield := mkU7 { uf_name : bytes; uf_kind : fkind; uf_required : bool; uf_optional : bool;
+                        uf_desc : bytes; uf_keyfmt : N; uf_container : N }.
+Notation mkU6 n k r o d kf := (mkU7 n k r o d kf 0) (only parsing).
+Notation mkU n k r o := (mkU7 n k r o [] 0 0) (only parsing).
 (* a schema declared inside the entity block (entity.Schemas: object / oneof / enum) *)
 Inductive eschema :=
 | SObject (name : bytes) (fields : list ufield)
@@ -96,7 +122,18 @@ Record command := mkC { c_name : option bytes; c_base : option bytes; c_methods 
 Record summary := mkS { s_name : bytes; s_fields : list ufield }.
 (* q_list_settings: the query block carries listRequest / eventsListRequest settings *)
 Record query := mkQ { q_events_in_get : bool; q_default_status : list bytes; q_list_settings : bool }.
-Record entity := mkE12 {
+(* descriptions of the elements that are not fields, by position (a missing entry = none): of the
+   events (leading comment of the nested message <X>EventType.<Event>), of the statuses (comment of
+   the enum value), of the schemas of the block (comment of the message / enum) and of the options of
+   the block's enums.  The `description` of the entity itself, of a command, of a method and of a
+   summary is accepted by the parser and appears nowhere in the output (the generator writes them; the
+   model ignores them; the compared output has no comment for them) *)
+Record enotes := mkN {
+  n_event_desc : list bytes; n_status_desc : list bytes;
+  n_schema_desc : list bytes; n_option_desc : list (list bytes) }.
+Definition no_notes : enotes := mkN [] [] [] [].
+
+Record entity := mkE13 {
   e_pkg : bytes;                              (* dotted package name *)
   e_name : bytes;
   e_base_url : bytes;                         (* "" = default *)
@@ -108,9 +145,11 @@ Record entity := mkE12 {
   e_summaries : list summary;
   e_query : option query;
   e_schemas : list eschema;
-  e_status_num : list N }.                   (* the `number` a status declares, in order; 0 / missing = none *)
+  e_status_num : list N;                     (* the `number` a status declares, in order; 0 / missing = none *)
+  e_notes : enotes }.
+Notation mkE12 p n b k d s ev c su q sc sn := (mkE13 p n b k d s ev c su q sc sn no_notes) (only parsing).
 (* a declaration whose statuses declare no numbers *)
-Notation mkE p n b k d s ev c su q sc := (mkE12 p n b k d s ev c su q sc []) (only parsing).
+Notation mkE p n b k d s ev c su q sc := (mkE13 p n b k d s ev c su q sc [] no_notes) (only parsing).
 
 (* ---- what is emitted ------------------------------------------------------- *)
 Inductive otype :=
@@ -124,16 +163,21 @@ Inductive otype :=
 
 (* a property; its field number is its 1-based position (mapProperties) *)
 (* the definition an inline field carries: kind (as TNested), fields / options, enum options *)
-Record inline_def := mkInl { il_kind : N; il_fields : list sfield; il_options : list bytes }.
+(* il_tree: the fields of an inline schema given as a tree ([] for the flat form, whose fields are il_fields) *)
+Record inline_def := mkInl4 { il_kind : N; il_fields : list sfield; il_options : list bytes; il_tree : list tfield }.
+Notation mkInl k f o := (mkInl4 k f o []) (only parsing).
 
-Record ofield := mkF11 {
+Record ofield := mkF13 {
   f_json : bytes; f_type : otype; f_repeated : bool; f_required : bool; f_flatten : bool;
   f_primary : bool; f_tenant : option bytes;
   f_filter : option (list bytes);     (* list filtering: Some defaults = filterable *)
   f_foreign : option (bytes * bytes); (* (j5.ext.v1.key).foreign_key {package, entity} *)
   f_optional : bool;                  (* proto3_optional *)
-  f_inline : option inline_def }.     (* Some: the field's type is defined inline, nested in the message *)
-Notation mkF10 j t r q fl p te fi fo o := (mkF11 j t r q fl p te fi fo o None) (only parsing).
+  f_inline : option inline_def;       (* Some: the field's type is defined inline, nested in the message *)
+  f_desc : bytes;                     (* the description, as declared *)
+  f_keyfmt : N }.                     (* (j5.ext.v1.field).key.format: 0 none, 1 FORMAT_ID62, 2 FORMAT_UUID *)
+Notation mkF11 j t r q fl p te fi fo o il := (mkF13 j t r q fl p te fi fo o il [] 0) (only parsing).
+Notation mkF10 j t r q fl p te fi fo o := (mkF13 j t r q fl p te fi fo o None [] 0) (only parsing).
 (* the fields entity.go itself creates have no foreign key and are never optional *)
 Definition mkF j t r q fl p te fi : ofield := mkF10 j t r q fl p te fi None false.
 
@@ -189,47 +233,83 @@ Definition otype_of_item (i : ikind) : otype :=
   end.
 
 Definition of_sfield (s : sfield) : ofield :=
-  mkF10 (sf_name s) (otype_of_item (sf_kind s)) false (sf_required s) false false None None None (sf_optional s).
+  mkF13 (sf_name s) (otype_of_item (sf_kind s)) false (sf_required s) false false None None None (sf_optional s)
+        None (sf_desc s) 0.
 
+(* the type / label / presence of a field whose type is defined inline, by its container *)
+Definition inline_type (c : N) (n : bytes) (k : N) : otype :=
+  if c =? 2 then TMap (TNested n k) else TNested n k.
+(* a field of an inline schema of the tree form; the tree below it is carried along in il_tree *)
+Definition of_tfield (t : tfield) : ofield :=
+  match t with
+  | TF n (TK i) r o d =>
+      mkF13 n (otype_of_item i) false r false false None None None o None d 0
+  | TF n (TKArray i) r o d =>
+      mkF13 n (otype_of_item i) true r false false None None None false None d 0
+  | TF n (TKMap i) r o d =>
+      mkF13 n (TMap (otype_of_item i)) true r false false None None None false None d 0
+  | TF n (TKInline k c fs os) r o d =>
+      mkF13 n (inline_type c (to_camel n) k) (negb (c =? 0)) r false false None None None (o && (c =? 0))
+            (Some (mkInl4 k [] os fs)) d 0
+  end.
 Definition of_ufield (u : ufield) : ofield :=
+  let d := uf_desc u in
+  let c := uf_container u in
   match uf_kind u with
   | KInlineObject fs =>
-      mkF11 (uf_name u) (TNested (to_camel (uf_name u)) 0) false (uf_required u) false false None None None
-            (uf_optional u) (Some (mkInl 0 fs []))
+      mkF13 (uf_name u) (inline_type c (to_camel (uf_name u)) 0) (negb (c =? 0)) (uf_required u) false false None None None
+            (uf_optional u && (c =? 0)) (Some (mkInl 0 fs [])) d 0
   | KInlineOneof fs =>
-      mkF11 (uf_name u) (TNested (to_camel (uf_name u)) 1) false (uf_required u) false false None None None
-            (uf_optional u) (Some (mkInl 1 fs []))
+      mkF13 (uf_name u) (inline_type c (to_camel (uf_name u)) 1) (negb (c =? 0)) (uf_required u) false false None None None
+            (uf_optional u && (c =? 0)) (Some (mkInl 1 fs [])) d 0
   | KInlineEnum os =>
-      mkF11 (uf_name u) (TNested (to_camel (uf_name u)) 2) false (uf_required u) false false None None None
-            (uf_optional u) (Some (mkInl 2 [] os))
+      mkF13 (uf_name u) (inline_type c (to_camel (uf_name u)) 2) (negb (c =? 0)) (uf_required u) false false None None None
+            (uf_optional u && (c =? 0)) (Some (mkInl 2 [] os)) d 0
   | KExt tn k =>
-      mkF10 (uf_name u) (TExt tn k) false (uf_required u) false false None None None (uf_optional u)
+      mkF13 (uf_name u) (TExt tn k) false (uf_required u) false false None None None (uf_optional u) None d 0
   (* an explicitly optional array / map is NOT proto3_optional (fix d536c9b, buildProperty: a repeated
      field cannot be the member of a synthetic oneof); the optional+required clash is still checked *)
   | KArray i =>
-      mkF10 (uf_name u) (otype_of_item i) true (uf_required u) false false None None None false
+      mkF13 (uf_name u) (otype_of_item i) true (uf_required u) false false None None None false None d 0
   | KMap v =>
-      mkF10 (uf_name u) (TMap (otype_of_item v)) true (uf_required u) false false None None None false
+      (* for a map of keys, f_keyfmt is the format of the VALUE field of the entry message *)
+      mkF13 (uf_name u) (TMap (otype_of_item v)) true (uf_required u) false false None None None false None d
+            (uf_keyfmt u)
   | KScalar pt k =>
-      mkF10 (uf_name u) (TScalar pt k) false (uf_required u) false false None None None (uf_optional u)
+      (* a key-typed scalar that is not an entity key declaration (`data x key:id62`) carries its format too *)
+      mkF13 (uf_name u) (TScalar pt k) false (uf_required u) false false None None None (uf_optional u) None d
+            (uf_keyfmt u)
   | KObject n =>
-      mkF10 (uf_name u) (TObject [] n) false (uf_required u) false false None None None (uf_optional u)
+      mkF13 (uf_name u) (TObject [] n) false (uf_required u) false false None None None (uf_optional u) None d 0
   | KOneof n =>
-      mkF10 (uf_name u) (TOneof [] n) false (uf_required u) false false None None None (uf_optional u)
+      mkF13 (uf_name u) (TOneof [] n) false (uf_required u) false false None None None (uf_optional u) None d 0
   | KEnum n =>
-      mkF10 (uf_name u) (TEnum [] n) false (uf_required u) false false None None None (uf_optional u)
+      mkF13 (uf_name u) (TEnum [] n) false (uf_required u) false false None None None (uf_optional u) None d 0
   | KKey primary foreign tenant =>
-      mkF10 (uf_name u) (TScalar 9 (bs "key")) false (uf_required u || primary) false primary tenant None
-            foreign (uf_optional u)
+      mkF13 (uf_name u) (TScalar 9 (bs "key")) false (uf_required u || primary) false primary tenant None
+            foreign (uf_optional u) None d (uf_keyfmt u)
+  | KInlineTree k fs =>
+      mkF13 (uf_name u) (inline_type c (to_camel (uf_name u)) k) (negb (c =? 0)) (uf_required u) false false None None None
+            (uf_optional u && (c =? 0)) (Some (mkInl4 k [] [] fs)) d 0
   end.
 (* buildProperty: "cannot be both required and optional" (a primary key is required) *)
 Definition sfield_ok (s : sfield) : bool := negb (sf_optional s && sf_required s).
+Fixpoint tfield_ok (t : tfield) : bool :=
+  match t with
+  | TF _ k r o _ =>
+      negb (o && r)
+      && match k with
+         | TKInline _ _ fs _ => forallb tfield_ok fs
+         | _ => true
+         end
+  end.
 Definition ufield_ok (u : ufield) : bool :=
   negb (uf_optional u && (uf_required u || match uf_kind u with KKey p _ _ => p | _ => false end))
   (* the fields of an inline object / the options of an inline oneof go through buildProperty too *)
   && match uf_kind u with
      | KInlineObject fs => forallb sfield_ok fs
      | KInlineOneof fs => forallb sfield_ok fs
+     | KInlineTree _ fs => forallb tfield_ok fs
      | _ => true
      end.
 Definition plain_field (name : string) (t : otype) (required : bool) : ofield :=
@@ -520,12 +600,28 @@ Fixpoint ref_resolves (defs : list (bool * bytes)) (t : otype) : bool :=
   end.
 
 (* a field resolves when its type does and, for an inline object / oneof, the types of its own fields do *)
+Fixpoint tfield_resolves (defs : list (bool * bytes)) (t : tfield) : bool :=
+  match t with
+  | TF _ k _ _ _ =>
+      match k with
+      | TK i => ref_resolves defs (otype_of_item i)
+      | TKArray i => ref_resolves defs (otype_of_item i)
+      | TKMap i => ref_resolves defs (otype_of_item i)
+      | TKInline _ _ fs _ =>
+          forallb (tfield_resolves defs) fs
+      end
+  end.
+(* (the shape of [field_resolves], [closed], [fields_of] is relied upon by other families' proofs -
+   CmpbEntityProofs, J5sEntity, PipelineEntity: it stays as it is; the references inside tree-form inline
+   schemas are checked alongside, by [trees_closed]) *)
 Definition field_resolves (defs : list (bool * bytes)) (f : ofield) : bool :=
   ref_resolves defs (f_type f)
   && match f_inline f with
      | Some il => forallb (fun s => ref_resolves defs (otype_of_item (sf_kind s))) (il_fields il)
      | None => true
      end.
+Definition tree_of (f : ofield) : list tfield :=
+  match f_inline f with Some il => il_tree il | None => [] end.
 
 Definition fields_of (cs : list component) : list ofield :=
   flat_map (fun c => match c with
@@ -536,6 +632,7 @@ Definition fields_of (cs : list component) : list ofield :=
 Definition closed (cs : list component) : bool :=
   forallb (field_resolves (defined cs)) (fields_of cs).
 
+
 (* every user-declared field of the declaration *)
 Definition all_ufields (e : entity) : list ufield :=
   map k_def (e_keys e) ++ e_data e ++ flat_map ev_fields (e_events e)
@@ -544,6 +641,10 @@ Definition all_ufields (e : entity) : list ufield :=
   ++ flat_map s_fields (e_summaries e)
   ++ flat_map schema_fields (e_schemas e).
 Definition fields_ok (e : entity) : bool := forallb ufield_ok (all_ufields e).
+(* the references made anywhere inside the user's tree-form inline schemas resolve too (against what the
+   expansion defines: [defs]) *)
+Definition trees_ok (e : entity) (defs : list (bool * bytes)) : bool :=
+  forallb (fun u => forallb (tfield_resolves defs) (tree_of (of_ufield u))) (all_ufields e).
 
 (* visitServiceMethodNode: every ":name" part of the resolved path must be a request property *)
 Definition params_ok (req : list bytes) (resolved : bytes) : bool :=
@@ -572,7 +673,7 @@ Definition list_settings (e : entity) : bool :=
 (* the conversion outcome (j5convert) as far as the expansion decides it *)
 Definition convert (e : entity) : outcome (list component) :=
   match expand e with
-  | Ok cs => if closed cs then
+  | Ok cs => if closed cs && trees_ok e (defined cs) then
                if fields_ok e then
                  if query_params_ok e && command_params_ok e then
                    if list_settings e then Err "listRequest is not supported on a method" else Ok cs
@@ -618,11 +719,18 @@ Definition is_map_field (f : ofield) : bool := match f_type f with TMap _ => tru
 Definition entry_names (fs : list ofield) : list bytes :=
   map (fun f => map_name (proto_name f)) (filter is_map_field fs).
 (* the types defined inline: their names, and - C++ scoping - the values of inline enums *)
+(* the nested type an inline field defines: its name and kind (also behind a map) *)
+Definition inline_of (f : ofield) : option (bytes * N * inline_def) :=
+  match f_inline f, f_type f with
+  | Some il, TNested n k => Some (n, k, il)
+  | Some il, TMap (TNested n k) => Some (n, k, il)
+  | _, _ => None
+  end.
 Definition inline_names (fs : list ofield) : list bytes :=
-  flat_map (fun f => match f_inline f, f_type f with
-    | Some il, TNested n _ =>
+  flat_map (fun f => match inline_of f with
+    | Some (n, _, il) =>
         n :: (if il_kind il =? 2 then map fst (status_values (to_screaming_snake n ++ [95]) (il_options il)) else [])
-    | _, _ => []
+    | None => []
     end) fs.
 Definition fields_scope (is_oneof : bool) (fs : list ofield) : list bytes :=
   map proto_name fs
@@ -630,12 +738,29 @@ Definition fields_scope (is_oneof : bool) (fs : list ofield) : list bytes :=
       else map (fun f => 95 :: proto_name f) (filter f_optional fs))
   ++ entry_names fs.
 (* the scopes of the inline objects / oneofs of a message *)
+(* the scopes of the nested messages of a tree-form inline schema: its own (fields, proto oneof /
+   presence oneofs, entry messages, the names its children define) and, recursively, its children's *)
+Fixpoint tfield_scopes (t : tfield) : list (list bytes) :=
+  match t with
+  | TF _ (TKInline k _ fs _) _ _ _ =>
+      if k =? 2 then []
+      else (fields_scope (k =? 1) (map of_tfield fs) ++ inline_names (map of_tfield fs))
+           :: flat_map tfield_scopes fs
+  | _ => []
+  end.
+Definition tree_scopes (k : N) (fs : list tfield) : list (list bytes) :=
+  (fields_scope (k =? 1) (map of_tfield fs) ++ inline_names (map of_tfield fs))
+  :: flat_map tfield_scopes fs.
 Definition inline_scopes (fs : list ofield) : list (list bytes) :=
   flat_map (fun f => match f_inline f with
-    | Some il => if il_kind il =? 2 then []
-                 else [map proto_name (map of_sfield (il_fields il))
-                       ++ (if il_kind il =? 1 then (if is_nil (il_fields il) then [] else [bs "type"])
-                           else map (fun s => 95 :: to_snake (sf_name s)) (filter sf_optional (il_fields il)))]
+    | Some il =>
+        match il_tree il with
+        | [] => if il_kind il =? 2 then []
+                else [map proto_name (map of_sfield (il_fields il))
+                      ++ (if il_kind il =? 1 then (if is_nil (il_fields il) then [] else [bs "type"])
+                          else map (fun s => 95 :: to_snake (sf_name s)) (filter sf_optional (il_fields il)))]
+        | tfs => tree_scopes (il_kind il) tfs
+        end
     | None => []
     end) fs.
 Definition msg_scopes (m : omsg) : list (list bytes) :=
